@@ -164,7 +164,20 @@ class InjectedOSError(OSError):
     """An OSError raised by the simulator; identified by identity, not by errno."""
 
 
-def _make_error(kind: str, path: str, seq: int) -> OSError:
+class InjectedInterrupt(KeyboardInterrupt):
+    """Ctrl-C / SIGINT delivered while the tool is inside an I/O call."""
+
+
+def _make_error(kind: str, path: str, seq: int) -> BaseException:
+    if kind.startswith("interrupt"):
+        e = InjectedInterrupt(f"[injected interrupt at event {seq}]")
+        e._vsim_injected = seq  # type: ignore[attr-defined]
+        STATE["injected_errors"].append(e)
+        return e
+    return _make_os_error(kind, path, seq)
+
+
+def _make_os_error(kind: str, path: str, seq: int) -> OSError:
     code = _ERRNOS[kind.split("_")[0]]
     e = InjectedOSError(code, os.strerror(code) + " [injected]", path)
     e._vsim_injected = seq  # type: ignore[attr-defined]
@@ -282,7 +295,7 @@ class _FileProxy:
         try:
             # a crash here loses whatever still sits in user-space buffers (real process death)
             _apply_fault_pre(ev, self._canon)
-        except OSError:
+        except (OSError, KeyboardInterrupt):
             # close() reporting an error: the descriptor is released all the same
             try:
                 self._real.close()
